@@ -20,6 +20,8 @@ SHAPES = {
     "diamond": (4, [True, True, False, False, True, True]),   # 0->1,0->2,1->3,2->3
     "chain4": (4, [True, False, True, False, False, True]),
     "fork4": (4, [True, True, False, True, False, False]),    # 0->1,0->2,0->3
+    "triangle": (3, [True, True, True]),                      # 0->1,0->2,1->2 (skip-level edge 0->2)
+    "tworootskip": (4, [False, True, True, True, False, True]),   # 0->2,1->2,0->3,2->3 (two roots, skip-level 0->3)
 }
 
 
@@ -207,7 +209,7 @@ class Deps(Observer):
         for (p, op) in w.all_ops:
             st = op.state()
             if st == S.RUNNING or st == S.COMPLETED:
-                for par in op.parents:
+                for par in decl_parents(op):
                     if par.state() != S.COMPLETED:
                         return f"C01:started_before_parent@{tag}"
             if id(op) in self.done and st != S.COMPLETED:
@@ -325,7 +327,7 @@ class Memory(Observer):
 
 
 def _ready(op):
-    return all(par.state() == S.COMPLETED for par in op.parents)
+    return all(par.state() == S.COMPLETED for par in decl_parents(op))
 
 
 def _snapshot(w):
